@@ -4,6 +4,7 @@ package main
 
 import (
 	"fmt"
+	"go/ast"
 	"go/token"
 	"go/types"
 	"strings"
@@ -32,7 +33,7 @@ func (c *Ctx) buildVC(fn *ssa.Function, con *Contract) *Unit {
 	params := map[string]Val{}
 	for _, p := range fn.Params {
 		n := em.fresh("p_"+p.Name(), em.sortOf(p.Type()))
-		em.assert(u.valInv(n, p.Type(), st))
+		em.assert(u.valInvDeep(n, p.Type(), st))
 		v := Val{T: n, Ty: p.Type()}
 		args = append(args, v)
 		params[p.Name()] = v
@@ -45,6 +46,12 @@ func (c *Ctx) buildVC(fn *ssa.Function, con *Contract) *Unit {
 		env := &SpecEnv{u: u, st: st, old: entry, vars: params, oldVars: params, pkg: con.Pkg, fr: pf}
 		for _, r := range con.Requires {
 			em.assert(env.boolExpr(r.Expr))
+		}
+	}
+	if con != nil {
+		env := &SpecEnv{u: u, st: st, old: entry, vars: params, oldVars: params, pkg: con.Pkg, fr: pf}
+		for _, ux := range con.Uses {
+			u.useLemma(&Frame{u: u, fn: fn}, st, env, ux)
 		}
 	}
 	// vacuity: the precondition must be satisfiable
@@ -197,4 +204,47 @@ func (u *Unit) frameGoal(hn string, now, entry *State, con *Contract) string {
 		expected = fmt.Sprintf("(ite (= r %s) %s %s)", e.ref, patched, expected)
 	}
 	return fmt.Sprintf("(forall ((r Int)) (! (=> (and (> r 0) (<= r alloc_init)) (= (select %s r) %s)) :pattern ((select %s r))))", h1, expected, h1)
+}
+
+// useLemma instantiates a proved lemma (a ghost function under contract): its
+// precondition becomes an obligation, its postcondition an assumption.
+func (u *Unit) useLemma(f *Frame, st *State, env *SpecEnv, x ast.Expr) {
+	call, ok := x.(*ast.CallExpr)
+	if !ok {
+		u.errf("use: not a call")
+		return
+	}
+	id, ok := call.Fun.(*ast.Ident)
+	if !ok {
+		u.errf("use: lemma must be a plain function name")
+		return
+	}
+	var lf *ssa.Function
+	if env.pkg != nil {
+		lf = u.ctx.funcsByKey[env.pkg.PkgPath+"::"+id.Name]
+	}
+	if lf == nil {
+		u.errf("use: unknown lemma %s", id.Name)
+		return
+	}
+	lcon := u.ctx.contractFor(lf)
+	if lcon == nil {
+		u.errf("use: lemma %s has no contract", id.Name)
+		return
+	}
+	u.em.usedSpecs[u.ctx.funcKey(lf)] = true
+	vars := map[string]Val{}
+	for i, p := range lf.Params {
+		if i < len(call.Args) {
+			v := env.coerce(env.expr(call.Args[i]), p.Type())
+			vars[p.Name()] = v
+		}
+	}
+	le := &SpecEnv{u: u, st: st, old: st, vars: vars, oldVars: vars, pkg: lcon.Pkg, fr: &Frame{u: u, fn: u.fn, pure: true}}
+	for _, r := range lcon.Requires {
+		u.oblige(f, st, "use-pre", id.Name+":"+r.label(), le.boolExpr(r.Expr), token.NoPos)
+	}
+	for _, e := range lcon.Ensures {
+		u.assume(st, le.boolExpr(e.Expr))
+	}
 }
